@@ -66,12 +66,19 @@ class Session:
         self.pass_budget = None  # remaining propagator executions in the current BC pass
         self.pass_bound = None
         self.choice_budget = None  # remaining branching decisions for the whole run (set by the caller)
+        self.solution_budget = None  # how many times the search may reach a solution (set by the caller)
+        self.solution_budget_why = ""
         self.schedule = None  # optional priority list for pop_propagator (C08)
         self.in_shaving = 0
         self.observers = []  # objects with optional methods on_filter/on_pass/on_choice/on_backtrack/on_shaving
         self.cur_pass = None
 
     # ---- helpers used by the wrappers -------------------------------------------------------
+    def count_solution(self):
+        self.n["alg_bound"] += 1
+        if self.budget and self.solution_budget is not None and self.n["alg_bound"] > self.solution_budget:
+            raise BudgetExceeded("the search reached a solution %d times; %s" % (self.n["alg_bound"], self.solution_budget_why))
+
     def emit(self, name, *a):
         for o in self.observers:
             f = getattr(o, name, None)
@@ -135,7 +142,7 @@ def _wrap_bc(orig):
         if status == nx.PROBLEM_INCONSISTENT:
             s.n["bc_inconsistent"] += 1
         elif status == nx.PROBLEM_BOUND and s.in_shaving == 0:
-            s.n["alg_bound"] += 1
+            s.count_solution()
         if s.detail:
             s.emit("on_pass", "bc", before, shr_domains_stack[top], int(status), a, s.in_shaving > 0)
         return status
@@ -169,7 +176,7 @@ def _wrap_shaving(orig):
         finally:
             s.in_shaving -= 1
         if status == nx.PROBLEM_BOUND:
-            s.n["alg_bound"] += 1
+            s.count_solution()
         if s.detail:
             s.emit("on_shaving", before, entry, int(status), a)
         return status
